@@ -131,6 +131,10 @@ func parseConfig(s *cryptobyte.String) (ConfigSpec, error) {
 	if !ss.ReadUint8LengthPrefixed((*cryptobyte.String)(&out.PublicName)) {
 		return out, ErrDecodeError
 	}
+	var extensions cryptobyte.String
+	if !ss.ReadUint16LengthPrefixed(&extensions) || !ss.Empty() {
+		return out, ErrDecodeError
+	}
 	return out, nil
 }
 
